@@ -54,7 +54,7 @@ TRUSTED = ["model of Info/Selector/Include written by hand (coq/Model/C05_Select
 ASSUMPTIONS = ["C05_select_sound (phase 4): reachability is rapid-type-analysis reachability over the modelled mentions: a method body can be executed only if some "
                "reachable declaration names its receiver type instance (values of a named type come into existence only in code that names the type); which "
                "declaration a mention needs / can dispatch to is defined with types.Identical on type arguments and signatures, independently of filter strings",
-               "C05_select_sound holds for programs spelled without the alias names byte/rune (prog_ok); without that hypothesis it is refuted (two recorded findings)",
+               "C05_select_sound holds for programs spelled without the alias names byte/rune (prog_ok); without that hypothesis it is not proved (its two historic counterexamples were repaired in /repo by 757816d and are now positive witnesses)",
                "outside the modelled syntax (see TRUSTED): the recorded deps over-approximate the run-time reference relation (C05_select_sound_partial; checked, not proved, by (2))",
                "programs import only unsafe and a sibling package; println is the only output"]
 
@@ -923,7 +923,7 @@ LEVEL_TEXT = ("Machine-checked theorems over an executable model of dce.Info/Sel
               "mentions (package functions/variables, named types through pointers/slices/maps/func types, generic instances, concrete/promoted/interface method calls "
               "and values, method expressions) the recording itself is in the model and C05_select_sound proves, with no hypothesis on the deps, that every declaration "
               "that can be executed or reached by a dynamically possible interface call is selected (C05_recorded_deps_cover_references, C05_method_filter_agrees, "
-              "C05_filter_subst), for alias-free spellings; with byte/uint8 spellings it is refuted by two witnesses replayed on the real compiler. The models are tied to "
+              "C05_filter_subst), for alias-free spellings; the two historic byte/uint8 counterexamples (repaired by fix 757816d) are positive witnesses, replayed on the real compiler on every run. The models are tied to "
               "the code on every run (random graphs, decl graphs of real programs, recorded filters/deps/selection of every Decl of generated abstract programs); outside "
               "the modelled syntax the over-approximation hypothesis is checked by linking the same archives with and without DCE and a static reference check of out.js.")
 LEVEL_NOTE = ("The proof covers the selection algorithm, the root rule and (phase 4) the recorder for the modelled syntax; for struct/interface literals in signatures, "
@@ -931,5 +931,5 @@ LEVEL_NOTE = ("The proof covers the selection algorithm, the root rule and (phas
               "tested (48 programs quick / 500 thorough). The struct zero-value closure and the collapsing of anonymous-type Decls are done by the harness. Known findings: "
               "initialisers that can panic without a call/receive are eliminated (HasSideEffect) -- kept in the model and refuted in Props/C05.v; byte/uint8 (rune/int32) spelled "
               "differently in interface and implementation of an unexported method eliminates the method, and (new) a generic instance spelled F[byte] in dead code and F[uint8] "
-              "in live code is eliminated -- both now IN the recorder model and refuted in Props/C05.v (C05_method_filter_refuted, C05_select_sound_refuted_iface/_instance); "
+              "in live code is eliminated -- both REPAIRED in /repo (fix 757816d), the recorder model follows the repaired printer and Props/C05.v holds the positive witnesses (C05_method_filter_alias_witness_agrees, C05_select_sound_alias_witness_iface/_instance); "
               "a self-referential inline type-parameter constraint overflows the stack in filters.go (not in the model). No axioms.")
